@@ -3,15 +3,21 @@
 Runner subs            clause subs reported by them
   C20.files            C20.files, C20.cn, C20.symmetric, C20.weights, C20.volumes, C20.oracle, C20.readback
   C20.volmatrix        C20.volmatrix.frame, C20.volmatrix.rows, C20.volmatrix.save, C20.volmatrix.oracle
+  C20.sequence         call words over complete argument tuples of cal_neighbors / VolumeMatrix (round 4, L6)
+Round 4 slices inside C20.files / C20.volmatrix: strain (only SOME edges change per frame), face (a particle exactly on a box face),
+form (storage of the snapshot arrays), read_neighbors with Nmax below / at / above the coordination number on the freud-written files.
 """
 import itertools
+import json
 import os
 
 import numpy as np
 
 from mc import alphabets as A
 from mc.harness import Result, Sub
+from mc.ref import c03x as X3
 from mc.ref import c20x as X
+from mc.ref import c20y as Y
 from mc.ref import neigh as NB
 from mc.ref.base import mk_snap
 
@@ -52,6 +58,25 @@ ASSUMPTIONS = [
     "C20.scale.volmatrix: no general-position screen (cell volumes do not depend on how a near-degenerate vertex is resolved); the "
     "finite-difference oracle is evaluated on the columns of a subset of displaced particles and the tolerance is 5e-5 * max(1, |A_ij|) "
     "(small cells give entries of order 10; observed relative deviation <= 4e-6); outputfile=None means 'do not save' (documented)",
+    "round 4 - strain slice: the orthogonal box may change from frame to frame in SOME of its edge lengths only (uniaxial / biaxial strain), late, "
+    "or return to an earlier box; every frame is tessellated in its own box",
+    "round 4 - face slice: a particle exactly on a face / the corner of the box (lower or upper bound, dyadic numbers) is a valid periodic "
+    "configuration (the upper face is the periodic image of the lower one); the general-position screen still applies to the tessellation",
+    "round 4 - form slice: the snapshot arrays may be Fortran-ordered / non-contiguous / single precision (positions rounded to float32 first, "
+    "so the oracle sees the stored numbers) / int32 species; ndim, nconfig, deltar, transform_matrix may be numpy scalars; the VolumeMatrix "
+    "'requested frame' reference is then computed with the same storage form so that it can stay bit for bit",
+    "round 4 - unwrap slice (L7): convert_configuration only shifts the origin, it does not fold; freud folds the points into its box itself, in "
+    "single precision, so coordinates up to 4.5 box lengths from the origin are 8-16 times coarser: the tessellation of particles displaced by "
+    "whole box lengths is compared with the oracle of the wrapped configuration at 16 x the usual tolerances (observed: face areas 1.4e-5); "
+    "VolumeMatrix is not run on unwrapped input (its finite differences amplify that noise by 1 / (2 deltar))",
+    "round 4 - readback: read_neighbors of the freud-written files with Nmax from {1, m-1, m, m+1, 200} (m = largest coordination number of a "
+    "frame): cn capped at Nmax, the first Nmax listed values kept, zero padded to the largest capped cn (the C05 reader contract)",
+    "VolumeMatrix of N >= 3 particles in general position is not identically zero (a displaced particle changes its own cell volume)",
+    "C20.sequence: a call must write / return bit for bit what the same call does when made first in a fresh process, whatever was analysed "
+    "before, whether earlier trajectory objects are still alive, and also after the arrays of the SAME Snapshots object were edited in place "
+    "(the 'frozen' dataclass only freezes the attribute binding); freud is deterministic single-threaded (already relied on by "
+    "C20.volmatrix.frame); L1 (options ignored in a mode), L3 (selections) and L8 (zero-valued options: deltar = 0 is a division by zero, "
+    "nconfig = 0 is covered) have no counterpart in the two routines",
 ]
 
 MINFACE = 1e-4
@@ -131,6 +156,73 @@ def gen_files(tier, seed):
                     Lf = BOXES[d][f % 2]
                     fr.append(frame(site_points(seed, d, Lf), sub, Lf, origin(ORIGINS[(f + 1) % 4], Lf), seed, f, "vb"))
                 yield {"d": d, "origin": "varying", "frames": fr}
+        yield from gen_strain(tier, seed, d)
+        yield from gen_face(tier, seed, d)
+        yield from gen_forms(tier, seed, d)
+        yield from gen_unwrapped(tier, seed, d)
+
+
+def gen_unwrapped(tier, seed, d):
+    # (round 4, L7) unwrapped coordinates: every particle displaced by 0 / +2 / -3 / +4 whole box lengths per axis (the wrapper only
+    # shifts the origin; freud folds the points into its box in single precision)
+    for L in BOXES[d]:
+        for on in ORIGINS:
+            lo = origin(on, L)
+            for n in ((5, 8) if tier == "quick" else (3, 5, 8, 12)):
+                yield {"d": d, "origin": on, "unwrap": True, "frames": [generic_frame(seed, n, L, lo, f"C20u{d}{n}")]}
+            sub = SITES[d][:4]
+            yield {"d": d, "origin": on, "unwrap": True, "frames": [frame(site_points(seed, d, L), sub, L, lo, seed, f, "uw") for f in range(2)]}
+
+
+def strain_frames(seed, d, sub, seq, oseq, tag):
+    """F = 3 frames of an affinely strained trajectory: the same jittered lattice sites in every frame's own box"""
+    return [frame(site_points(seed, d, Lf), sub, Lf, origin(on, Lf), seed, f, tag) for f, (Lf, on) in enumerate(zip(seq, oseq))]
+
+
+def gen_strain(tier, seed, d):
+    # (round 4, L2 / seed c20_a6) only SOME edge lengths change between consecutive frames (uniaxial strain along every axis, biaxial with
+    # the last axis fixed), the change comes late, the box returns to the first one, all edges change; x origin sequences whose first / a
+    # later frame is the centred box
+    q = tier == "quick"
+    for name, seq in Y.STRAIN[d].items():
+        for oseq in Y.STRAIN_ORIGINS:
+            for sub in subsets(d, 4 if q else 3, 4 if q else 5, 5 if q else 6):
+                yield {"d": d, "origin": "varying" if len(set(oseq)) > 1 else oseq[0], "strain": name,
+                       "frames": strain_frames(seed, d, sub, seq, oseq, "st")}
+
+
+def gen_face(tier, seed, d):
+    # (round 4, L4) particle 0 (and 1) EXACTLY on a face / the corner of the box; all box numbers are dyadic
+    for L in BOXES[d]:
+        for on in ORIGINS:
+            lo = origin(on, L)
+            for n in ((5, 8) if tier == "quick" else (4, 5, 8, 12)):
+                base = generic_frame(seed, n, L, lo, f"C20face{d}{n}")
+                for kind in Y.FACE_KINDS:
+                    yield {"d": d, "origin": on, "face": kind, "frames": [dict(base, pos=Y.on_face(base["pos"], L, lo, kind))]}
+
+
+def gen_forms(tier, seed, d):
+    # (round 4, L5) storage of the snapshot arrays: Fortran-ordered / non-contiguous / single-precision positions, Fortran-ordered
+    # bounds and h-matrix with a strided boxlength, int32 species.  For pos_float32 the coordinates are rounded to single precision
+    # FIRST, so that the oracle sees the numbers the arrays hold.
+    L = BOXES[d][1]
+    pts = site_points(seed, d, L)
+    picks = list(subsets(d, 4, 4, 5))[: (2 if tier == "quick" else 5)]
+    for form in Y.FORMS:
+        for on in ORIGINS:
+            lo = origin(on, L)
+            for sub in picks:
+                fr = frame(pts, sub, L, lo)
+                if form == "pos_float32":
+                    fr["pos"] = Y.f32(fr["pos"])
+                yield {"d": d, "origin": on, "form": form, "frames": [fr]}
+        for sub in picks:
+            fr = strain_frames(seed, d, sub, Y.STRAIN[d]["x_only"], Y.STRAIN_ORIGINS[1], "fm")
+            if form == "pos_float32":
+                for x in fr:
+                    x["pos"] = Y.f32(x["pos"])
+            yield {"d": d, "origin": "varying", "form": form, "strain": "x_only", "frames": fr}
 
 
 def gen_volmatrix(tier, seed):
@@ -160,6 +252,38 @@ def gen_volmatrix(tier, seed):
         for sub in subsets(d, 3, 3, 4):
             yield {"d": d, "origin": "zero", "frames": [frame(pts, sub, L, origin("zero", L))], "nconfig": 0, "transform": False,
                    "save": False, "oracle": True, "deltar": 0.02}
+        # ---- round 4: strained trajectories (only some edges change per frame), every requested frame
+        q = tier == "quick"
+        small = 4 if d == 2 else 3
+        picks = list(subsets(d, 3, small, 5))[: (4 if q else 12)]
+        for name, seq in Y.STRAIN[d].items():
+            for oi, oseq in enumerate(Y.STRAIN_ORIGINS[1:3]):
+                for si, sub in enumerate(picks):
+                    if q and (si + oi) % 2:
+                        continue
+                    frames = strain_frames(seed, d, sub, seq, oseq, "vs")
+                    for k in range(3):
+                        yield {"d": d, "origin": "varying", "strain": name, "frames": frames, "nconfig": k, "transform": False, "save": False,
+                               "oracle": True, "deltar": 0.01}
+                    yield {"d": d, "origin": "varying", "strain": name, "frames": frames, "nconfig": 2, "transform": True, "save": False,
+                           "oracle": False, "deltar": 0.01}
+        # ---- round 4: a particle exactly on a face / the corner of the box
+        for on in ("123", "sumzero"):
+            lo = origin(on, L)
+            base = generic_frame(seed, small, L, lo, f"C20vmface{d}")
+            for kind in ("lo_x", "hi_last", "corner", "lo_and_hi"):
+                yield {"d": d, "origin": on, "face": kind, "frames": [dict(base, pos=Y.on_face(base["pos"], L, lo, kind))], "nconfig": 0,
+                       "transform": False, "save": False, "oracle": True, "deltar": 0.01}
+        # ---- round 4: storage forms of the snapshot arrays, numpy scalars for ndim / nconfig / deltar
+        for form in Y.FORMS + ["scalar_numpy"]:
+            for sub in picks[-2:]:
+                frames = strain_frames(seed, d, sub, Y.STRAIN[d]["x_only"], Y.STRAIN_ORIGINS[2], "vf")[:2]
+                if form == "pos_float32":
+                    for x in frames:
+                        x["pos"] = Y.f32(x["pos"])
+                for k in (0, 1):
+                    yield {"d": d, "origin": "varying", "form": form, "strain": "x_only", "frames": frames, "nconfig": k, "transform": False,
+                           "save": False, "oracle": True, "deltar": 0.01}
 
 
 # ---------------------------------------------------------------------------------------------- scale slice (generators)
@@ -243,8 +367,22 @@ def build(case):
     snaps = []
     for t, fr in enumerate(case["frames"]):
         n = len(fr["pos"])
-        snaps.append(mk_snap(fr["pos"], np.diag(fr["L"]), [1] * n, lo=fr["lo"], ts=t))
-    return Snapshots(len(snaps), snaps)
+        pos = fr["pos"]
+        if case.get("unwrap"):
+            pos = [[x + Y.UNWRAP[(i + 2 * a + t + 1) % 4] * fr["L"][a] for a, x in enumerate(p)] for i, p in enumerate(pos)]
+        snaps.append(mk_snap(pos, np.diag(fr["L"]), [1] * n, lo=fr["lo"], ts=t))
+    out = Snapshots(len(snaps), snaps)
+    if case.get("form") in Y.FORMS:
+        out = Y.with_form(out, case["form"])
+    return out
+
+
+def extra_sig(case, sig):
+    """coarse features of the round-4 slices"""
+    for k in ("strain", "face", "form", "unwrap"):
+        if case.get(k):
+            sig[k] = case[k] if k == "form" else True
+    return sig
 
 
 def tessellate(case):
@@ -286,6 +424,7 @@ def run_files(case):
     sig = {"d": d, "origin": case["origin"], "F": F}
     if case.get("scale"):
         sig["scale"] = True
+    extra_sig(case, sig)
     ref = tessellate_pp(case) if case.get("scale") else tessellate(case)
     if ref is None:
         return R.screen()
@@ -293,6 +432,8 @@ def run_files(case):
     before = [s.positions.copy() for s in snaps.snapshots]
     out = "c20out"
     compared = 0
+    # unwrapped coordinates are up to 4.5 box lengths from the origin: freud's single-precision storage is 8-16 times coarser there
+    tw, tv, ts_, tsum = (TOL_W, TOL_V, 2e-6, 1e-6) if not case.get("unwrap") else (16 * TOL_W, 16 * TOL_V, 3.2e-5, 1.6e-5)
     cal_neighbors(snaps, outputfile=out)
     bond = out + (".edgelength.dat" if d == 2 else ".facearea.dat")
     names = {"neighbor": out + ".neighbor.dat", "bond": bond, "overall": out + ".overall.dat"}
@@ -362,14 +503,14 @@ def run_files(case):
                 if len(wij) != len(wji):
                     R.fail(f"frame {t}: {j + 1} listed {len(wij)}x by {i + 1} but {i + 1} listed {len(wji)}x by {j + 1}",
                            sig=dict(s2, clause="symmetric"), sub="C20.symmetric", obs=[[x + 1 for x in l] for l in nl])
-                elif any(abs(a - b) > 2e-6 for a, b in zip(wij, wji)):
+                elif any(abs(a - b) > ts_ for a, b in zip(wij, wji)):
                     R.fail(f"frame {t}: weights of {i + 1}->{j + 1} {wij} differ from {j + 1}->{i + 1} {wji}", sig=dict(s2, clause="weights_equal"),
                            sub="C20.weights")
             if any(not w > 0 for w in wl[i]):
                 R.fail(f"frame {t}: particle {i + 1} has a non-positive weight", sig=dict(s2, clause="weights_positive"), sub="C20.weights", obs=wl[i])
         # -- volumes
         V = float(np.prod(case["frames"][t]["L"]))
-        if abs(sum(vol) - V) > n * 1e-6 or any(not v > 0 for v in vol):
+        if abs(sum(vol) - V) > n * tsum or any(not v > 0 for v in vol):
             R.fail(f"frame {t}: cell sizes sum to {sum(vol)!r}, box {V!r}", sig=dict(s2, clause="volumes"), sub="C20.volumes", obs=vol)
         # -- independent tessellation
         for i in range(n):
@@ -380,11 +521,11 @@ def run_files(case):
             elif [g[0] for g in got] != [e[0] for e in exp]:
                 R.fail(f"frame {t}: particle {i + 1}: neighbours differ from the scipy tessellation", sig=dict(s2, clause="oracle_neighbours"),
                        sub="C20.oracle", exp=[e[0] + 1 for e in exp], obs=[g[0] + 1 for g in got])
-            elif any(abs(g[1] - e[1]) > TOL_W + (e[2] if len(e) > 2 else 0.0) for g, e in zip(got, exp)):
+            elif any(abs(g[1] - e[1]) > tw + (e[2] if len(e) > 2 else 0.0) for g, e in zip(got, exp)):
                 R.fail(f"frame {t}: particle {i + 1}: {'edge lengths' if d == 2 else 'face areas'} differ from the scipy tessellation",
                        sig=dict(s2, clause="oracle_weights"), sub="C20.oracle", exp=exp, obs=got)
             compared += bool(clean[i])
-            if abs(vol[i] - vol_ref[i]) > TOL_V:
+            if abs(vol[i] - vol_ref[i]) > tv:
                 R.fail(f"frame {t}: particle {i + 1}: cell size {vol[i]} differs from the scipy tessellation {vol_ref[i]}",
                        sig=dict(s2, clause="oracle_volumes"), sub="C20.oracle")
     # -- readable by the neighbour-file reader, frame after frame from one handle
@@ -403,6 +544,24 @@ def run_files(case):
                            sub="C20.readback", exp=eb, obs=b)
             if fnb.readline() != "" or fw.readline() != "":
                 R.fail("data left after the last frame", sig=dict(sig, clause="readback"), sub="C20.readback")
+        # (round 4) the reader's truncation to a requested maximum BELOW / AT / ABOVE the coordination numbers of the freud-written
+        # files: every rotation of the alphabet {1, m-1, m, m+1, 200} over the frames of one open handle per file (the two files are
+        # read with different values in the same step)
+        vn = [[[float(v) for v in r[2]] for r in pn[t]["rows"]] for t in range(F)]
+        vb = [[[float(v) for v in r[2]] for r in pb[t]["rows"]] for t in range(F)]
+        alph = NB.nmax_alphabet(vn)
+        for s_ in range(len(alph) if F * n <= 2000 else 2):
+            with open(names["neighbor"]) as fnb, open(names["bond"]) as fw:
+                for t in range(F):
+                    m = max(len(x) for x in vn[t])
+                    for fh, vals, is_nl, nm in ((fnb, vn[t], True, alph[(s_ + t) % len(alph)]), (fw, vb[t], False, alph[(s_ + t + 1) % len(alph)])):
+                        tab = read_neighbors(fh, n, nm)
+                        exp = NB.ref_read(vals, n, nm, is_nl)
+                        if tab.shape != exp.shape or not np.array_equal(tab, exp) or (tab.dtype.kind in "iu") != is_nl:
+                            R.fail(f"frame {t}: read_neighbors(Nmax={nm}) of the {'neighbour' if is_nl else 'bond'} file (largest cn {m}) differs from "
+                                   "'cn capped at Nmax, the first Nmax listed values, zero padded to the largest capped cn'",
+                                   sig=dict(sig, clause="readback", file="neighbor" if is_nl else "bond",
+                                            Nmax="below" if nm < m else ("equal" if nm == m else "above")), sub="C20.readback", exp=exp, obs=tab)
     for s, b in zip(snaps.snapshots, before):
         if not np.array_equal(s.positions, b):
             R.fail("snapshot positions modified", sig=dict(sig, clause="input_modified"), sub="C20.files")
@@ -426,6 +585,7 @@ def run_volmatrix(case):
     n = len(case["frames"][0]["pos"])
     tr = case["transform"]
     sig = {"d": d, "origin": case["origin"], "F": F, "nconfig": "0" if k == 0 else ">0", "transform": tr, "save": case["save"]}
+    extra_sig(case, sig)
     if case.get("scale"):
         sig["scale"] = True   # no general-position screen: cell volumes do not depend on how a near-degenerate vertex is resolved
     elif tessellate(case) is None:
@@ -433,7 +593,10 @@ def run_volmatrix(case):
     snaps = build(case)
     before = [s.positions.copy() for s in snaps.snapshots]
     out = "c20vm" if case["save"] else (None if case.get("scale") else "")
-    M = VolumeMatrix(snaps, ndim=d, nconfig=k, deltar=case["deltar"], transform_matrix=tr, outputfile=out)
+    if case.get("form") == "scalar_numpy":
+        M = VolumeMatrix(snaps, ndim=np.int64(d), nconfig=np.int32(k), deltar=np.float32(case["deltar"]), transform_matrix=np.bool_(tr), outputfile=out)
+    else:
+        M = VolumeMatrix(snaps, ndim=d, nconfig=k, deltar=case["deltar"], transform_matrix=tr, outputfile=out)
     M = np.asarray(M)
     shape = (n * d, n * d) if tr else (n, n * d)
     if M.shape != shape:
@@ -441,7 +604,12 @@ def run_volmatrix(case):
         return R
     # -- the requested frame: same result as on a one-frame Snapshots holding frame k
     one = Snapshots(1, [mk_snap(case["frames"][k]["pos"], np.diag(case["frames"][k]["L"]), [1] * n, lo=case["frames"][k]["lo"], ts=0)])
-    M1 = np.asarray(VolumeMatrix(one, ndim=d, nconfig=0, deltar=case["deltar"], transform_matrix=tr, outputfile=""))
+    dl = case["deltar"]
+    if case.get("form") in Y.FORMS:
+        one = Y.with_form(one, case["form"])       # the same storage form, so that the comparison can stay bit for bit
+    elif case.get("form") == "scalar_numpy":
+        dl = np.float32(dl)
+    M1 = np.asarray(VolumeMatrix(one, ndim=d, nconfig=0, deltar=dl, transform_matrix=tr, outputfile=""))
     if M1.shape != M.shape or not np.array_equal(M, M1, equal_nan=True):
         R.fail(f"VolumeMatrix(nconfig={k}) of {F} frames differs from VolumeMatrix of frame {k} alone", sig=dict(sig, clause="frame"),
                sub="C20.volmatrix.frame", exp=M1, obs=M)
@@ -452,6 +620,11 @@ def run_volmatrix(case):
         R.fail("non-finite entries", sig=dict(sig, clause="finite"), sub="C20.volmatrix.rows")
     elif not tr and np.abs(rs).max() > 1e-9 * scale:
         R.fail(f"row sums over a displaced coordinate up to {np.abs(rs).max():.3g}", sig=dict(sig, clause="rows"), sub="C20.volmatrix.rows", obs=rs)
+    # -- non-vacuity: for N >= 3 particles in general position the response matrix is not identically zero (zero row sums hold trivially
+    #    for a matrix of zeros; N = 2 vanishes identically by inversion symmetry)
+    if n >= 3 and not np.any(M):
+        R.fail(f"VolumeMatrix(nconfig={k}) is identically zero for {n} particles in general position", sig=dict(sig, clause="all_zero"),
+               sub="C20.volmatrix.oracle")
     # -- the documented definition on the requested frame (raw matrix only)
     if case["oracle"] and not tr:
         fr = case["frames"][k]
@@ -491,19 +664,99 @@ def run_volmatrix(case):
     return R
 
 
+# ---------------------------------------------------------------------------------------------- C20.sequence (round 4, L6)
+# Letters = (trajectory, version, operation): complete argument tuples of cal_neighbors (+ read_neighbors of what it wrote) and
+# VolumeMatrix.  Pairs collide in plausible INCOMPLETE cache keys: A / B / D have equal (nframes, nparticle, ndim); D shares its whole
+# first frame with A (a key built from frame 0); A version 1 is the SAME object with box, bounds, h-matrix and positions rescaled IN
+# PLACE (a key built from id(snapshots)); C is 3D with the same nframes / nparticle (2D then 3D); all cal letters write the same file
+# names; with keep = False earlier trajectories are released before a new one is built, so id() values are recycled.
+SEQ_LETTERS = [("A", 0, "cal"), ("A", 1, "cal"), ("B", 0, "cal"), ("D", 0, "cal"), ("C", 0, "cal"),
+               ("A", 0, "vm1"), ("A", 1, "vm1"), ("B", 0, "vm1"), ("D", 0, "vm1"), ("A", 0, "vm0"), ("C", 0, "vm1")]
+
+
+def gen_sequence(tier, seed):
+    depth = 2 if tier == "quick" else 3
+    nl = len(SEQ_LETTERS)
+    for Lw in range(1, depth + 1):
+        for word in itertools.product(range(nl), repeat=Lw):
+            if Lw == 3 and len(set(word)) == 1:
+                continue
+            for keep in ((True,) if Lw == 1 else (True, False)):
+                yield {"part": "sequence", "word": list(word), "keep": keep, "seed": seed}
+
+
+_SEQ_FRESH = {}
+
+
+def _seq_case(case, word):
+    return {"seed": case["seed"], "keep": True, "word": [list(SEQ_LETTERS[k]) for k in word]}
+
+
+def run_sequence(case):
+    R = Result()
+    seed = case["seed"]
+    names = ["%s%d.%s" % SEQ_LETTERS[k] for k in case["word"]]
+    payload = X3.fresh_child(Y.seq_eval, dict(_seq_case(case, case["word"]), keep=case["keep"]), Y.SEQ_MODS)
+    if "err" in payload:
+        R.fail(f"call sequence {names} raised {payload['err']}", sig={"part": "sequence", "exception": True})
+        return R
+    for k in set(case["word"]):
+        if (seed, k) not in _SEQ_FRESH:
+            one = X3.fresh_child(Y.seq_eval, _seq_case(case, [k]), Y.SEQ_MODS)
+            if "err" in one:
+                R.fail(f"single call {names} raised {one['err']}", sig={"part": "sequence", "exception": True})
+                return R
+            _SEQ_FRESH[(seed, k)] = json.dumps(one["ok"][0]["res"], sort_keys=True)
+    states = set()
+    released = recycled = 0
+    seen_objs = set()
+    for pos_, (k, got) in enumerate(zip(case["word"], payload["ok"])):
+        obj, ver, op = SEQ_LETTERS[k]
+        g = json.dumps(got["res"], sort_keys=True)
+        if not case["keep"] and seen_objs and obj not in seen_objs:
+            released += 1
+            recycled += bool(got["recycled"])
+        if not case["keep"] and obj not in seen_objs:
+            seen_objs = {obj}
+        else:
+            seen_objs.add(obj)
+        if g != _SEQ_FRESH[(seed, k)]:
+            how = "edited in place" if got["edited"] else ("on a recycled id()" if got["recycled"] else "after other calls")
+            R.fail(f"call #{pos_ + 1} ({names[pos_]}, {how}) of the sequence {names} (keep={case['keep']}) differs from the same call made first in a "
+                   "fresh process", sig={"part": "sequence", "op": op[:2], "position": "later" if pos_ else "first", "edited": bool(got["edited"]),
+                                         "recycled": bool(got["recycled"])},
+                   exp=_SEQ_FRESH[(seed, k)][:300], obs=g[:300])
+        states.add(g[:4000])
+    R.outcome(sorted(states), nd=9)
+    R.states = len(case["word"]) + 1
+    R.transitions = len(case["word"])
+    R.elem = len(case["word"])
+    R.nontrivial = released == recycled     # a released trajectory's id() must actually have been handed to the next one
+    return R
+
+
 def subs(tier, seed):
     q = tier == "quick"
     return [
         Sub("C20.files", gen_files, run_files,
             rule="placements = all N-subsets of %s sites of a jittered 3^d lattice (2D N=2..%d, 3D N=2..%d) + generic point sets; boxes 4x4(x4), "
             "4x6(x5); origins {0, centred, (1,2,3), off-centre with bounds summing to zero}; F=2,3 files (same box; box size and origin "
-            "changing per frame); non-trivial = N >= 3 or F > 1" % (("6", 6, 5) if q else ("9 (2D) / 8 (3D)", 9, 8)),
-            bounds={"N2d": [2, 6 if q else 9], "N3d": [2, 5 if q else 8], "F": [1, 3], "origins": ORIGINS}),
+            "changing per frame); non-trivial = N >= 3 or F > 1" % (("6", 6, 5) if q else ("9 (2D) / 8 (3D)", 9, 8))
+            + "; round 4: F=3 STRAINED trajectories (all N-subsets, N=%s, of %d sites x box sequences %s (2D) / %s (3D): only x / only the last axis / "
+            "all but the last axis change, late change, return to the first box, all change) x 4 origin sequences (constant, centred box first / later); "
+            "a particle EXACTLY on a face / the corner (%s) of generic N=%s sets x boxes x origins; storage forms %s x origins (+ a strained F=3 file); "
+            "particles displaced by 0 / +2 / -3 / +4 box lengths per axis (16 x tolerances); read_neighbors of both written files with every rotation of "
+            "Nmax in {1, m-1, m, m+1, 200} over the frames" % ("4" if q else "3..5", 5 if q else 6, sorted(Y.STRAIN[2]), sorted(Y.STRAIN[3]), Y.FACE_KINDS,
+                                                               "5, 8" if q else "4, 5, 8, 12", Y.FORMS),
+            bounds={"N2d": [2, 6 if q else 9], "N3d": [2, 5 if q else 8], "F": [1, 3], "origins": ORIGINS, "strain_sequences": 6, "faces": len(Y.FACE_KINDS),
+                    "forms": len(Y.FORMS), "unwrap_boxes": [-3, 4]}),
         Sub("C20.volmatrix", gen_volmatrix, run_volmatrix,
             rule="N-subsets of %d lattice sites (2D N<=%d, 3D N<=%d) x F in {1,2,3} x every requested frame index x transform_matrix on/off x "
             "outputfile on/off x origins; scipy finite-difference oracle on the raw matrix for small N; non-trivial = N >= 3"
-            % ((5, 5, 4) if q else (6, 6, 5)),
-            bounds={"F": [1, 3], "nconfig": "0..F-1", "deltar": [0.01, 0.02]}),
+            % ((5, 5, 4) if q else (6, 6, 5))
+            + "; round 4: the 6 strained F=3 box sequences x 2 origin sequences x every requested frame (oracle on each) + transformed matrix of the last "
+            "frame; a particle exactly on a face / corner; storage forms of the snapshot arrays and numpy scalars for ndim / nconfig / deltar",
+            bounds={"F": [1, 3], "nconfig": "0..F-1", "deltar": [0.01, 0.02], "strain_sequences": 6}),
         Sub("C20.scale.files", gen_scale_files, run_files,
             rule="SCALE slice - enumerates SIZES with one fixed deterministic generic point pattern per size, box and frame: cal_neighbors on "
             "N in %s (2D) / %s (3D) particles; boxes with unequal edges (6x9, 9x6, 7.5x9 / 6x9x7.5 and its rotations, scaled with N); the four "
@@ -519,4 +772,13 @@ def subs(tier, seed):
             "transformed matrix + saving on the F=3 file" % (VM_N[2], VM_N[3], "1 or 2" if q else "0, 1, 2",
                                                              "3 displaced particles (first, middle, last)" if q else "all (N <= 33 / 10) or 8 displaced particles"),
             bounds={"N2d": VM_N[2], "N3d": VM_N[3], "F": [1, 3], "deltar": [0.01, 0.02]}),
+        Sub("C20.sequence", gen_sequence, run_sequence,
+            rule=f"explicit-state search over call words of length <= {2 if q else 3} over {len(SEQ_LETTERS)} letters (trajectory, version, operation): "
+            "cal_neighbors (+ read_neighbors of the files it wrote, Nmax 200 / 3) and VolumeMatrix(nconfig 0 / 1, raw) on four 2-frame 5-particle "
+            "trajectories - A, B, D with equal (nframes, nparticle, ndim) and uniaxially strained boxes, D sharing its whole first frame with A, C "
+            "three-dimensional - and on A after its arrays (positions, boxlength, boxbounds, hmatrix) were rescaled by 1.25 IN PLACE on the live "
+            "object; every word with all trajectories kept alive and with earlier ones released before the next is built (the id() of the released "
+            "object is handed to the new one; a word where that did not happen counts as trivial); every word in a forked child whose library "
+            "modules were re-imported; every call must return / write bit for bit what the same call does when made first in a fresh child",
+            bounds={"letters": len(SEQ_LETTERS), "depth": 2 if q else 3, "lifetimes": 2}),
     ]
